@@ -1732,7 +1732,37 @@ def r_graphbuild(ctx) -> RuleResult:
                 res.fail(Finding("R-GRAPHBUILD", gfm.module.rel, gfm.qualname, norm(r), "renumbering does not use insertion order starting at 0", line=r.lineno))
         else:
             ok2 = nspace in ("insertion", "values") or (nspace == espace and nspace in ("sorted",))
-            res.inst(gfm.fq, short(r), "ok" if ok2 else "fail", detail=f"no renumbering call; labels already positions ({nspace})")
+            if not ok2 and isinstance(v, ast.Call):
+                # some other call produces the returned graph: is it a renumbering to 0..n-1 in insertion order?
+                # relabel(graph, dict(zip(graph.nodes, range(n)))) written directly or through a helper with that body
+                def zip_nodes_range(call, f, bind):
+                    """call = nx.relabel_nodes(G, dict(zip(A, B))) with A = nodes of G, B = range(number of nodes)"""
+                    if not (norm(call.func).endswith("relabel_nodes") and len(call.args) >= 2):
+                        return None
+                    mp_ = call.args[1]
+                    if isinstance(mp_, ast.Name):
+                        mp_ = single_def(f.node, mp_.id) or mp_
+                    if not (isinstance(mp_, ast.Call) and isinstance(mp_.func, ast.Name) and mp_.func.id == "dict" and mp_.args and isinstance(mp_.args[0], ast.Call)
+                            and isinstance(mp_.args[0].func, ast.Name) and mp_.args[0].func.id == "zip" and len(mp_.args[0].args) == 2):
+                        return None
+                    a_, b_ = (bind.get(x.id, x) if isinstance(x, ast.Name) else x for x in mp_.args[0].args)
+                    gname = norm(bind.get(call.args[0].id, call.args[0])) if isinstance(call.args[0], ast.Name) else norm(call.args[0])
+                    nodes_ok = norm(a_) in (f"{gname}.nodes", gname, f"list({gname})", f"{gname}.nodes()", f"list({gname}.nodes)")
+                    rng_ok = norm(b_) in (f"range({gname}.number_of_nodes())", f"range(len({gname}))", f"range(len({gname}.nodes))", "count()", "itertools.count()")
+                    return nodes_ok and rng_ok
+                verdict = zip_nodes_range(v, gfm, {})
+                if verdict is None:
+                    csr = ctx.cg.resolve_call(gfm, v, ctx.cg.local_types(gfm), set(params_of(fn)))
+                    if csr.kind == "tucan":
+                        h = csr.target
+                        hrets = [x for x in own_walk(h.node) if isinstance(x, ast.Return) and isinstance(x.value, ast.Call)]
+                        if len(hrets) == 1:
+                            bind = dict(zip(params_of(h.node), v.args))
+                            verdict = zip_nodes_range(hrets[0].value, h, bind)
+                if verdict is None:
+                    raise AnalysisError(f"R-GRAPHBUILD: cannot tell whether `{short(v)}` renumbers the atoms 0..n-1 in insertion order")
+                ok2 = verdict
+            res.inst(gfm.fq, short(r), "ok" if ok2 else "fail", detail=f"no renumbering call; labels already positions ({nspace})" if not isinstance(v, ast.Call) else "renumbered in insertion order")
             if not ok2:
                 res.fail(Finding("R-GRAPHBUILD", gfm.module.rel, gfm.qualname, norm(r), "the returned graph keeps file / string indices as labels instead of 0..n-1", line=r.lineno))
     res.trusted = ["networkx.convert_node_labels_to_integers renumbers nodes and edges with one map (R-LIBSRC)"]
